@@ -296,8 +296,33 @@ def run(prop, tier, seed):
 
 
 def replay(prop, path):
-    """Re-executes recorded case(s) in the real code and re-validates with every contract named."""
+    """Re-executes recorded case(s) in the real code and re-validates them with TLC against the
+    specification the case belongs to (all contracts of the property enabled, diagnosis on failure)."""
+    if not path.endswith(".ndjson"):
+        print(open(path).read()[-6000:])       # a model-checking counterexample: TLC's own trace
+        print("VIOLATION property=%s replay=%s" % (prop, path))
+        return 1
     ck = Check(prop, "quick", 0)
+    ck.is_replay = True
     cases = [json.loads(l) for l in open(path) if l.strip()]
-    ck.traces(cases, [prop], tag="replay")
+    by_kind = {}
+    for c in cases:
+        k = c.get("kind", "flow")
+        if k == "pool":
+            k = "blocks" if "blocks" in c else ("pool" if c.get("ctrl", 1) else "poolfree")
+        by_kind.setdefault(k, []).append(c)
+    for k, cs in by_kind.items():
+        if k == "flow":
+            ck.traces(cs, [prop], tag="replay")
+        elif k == "grid":
+            ck.traces(cs, ["C07", "C17", "C18"], tag="replay", spec=GRID_SPEC, sample_events=("Q",))
+        elif k == "adi":
+            ck.traces(cs, [], tag="replay", spec=("ADITrace.tla", "ADITrace.cfg"), sample_events=("Adi",))
+        elif k == "pool":
+            ck.traces(cs, [], tag="replay", spec=POOL_SPEC, diag=False, timeout_ms=20000, sample_events=("PoolNew",))
+        elif k == "poolfree":
+            ck.traces(cs, [], tag="replay", flavor="tsan", build=TSAN_POOL_BUILD, env=TSAN_ENV,
+                      spec=("PoolFree.tla", "PoolFree.cfg"), diag=False, timeout_ms=20000, sample_events=("PoolNew",))
+        elif k == "blocks":
+            ck.traces(cs, [], tag="replay", spec=("BlocksTrace.tla", "BlocksTrace.cfg"), sample_events=("Blocks",))
     return ck.finish()
